@@ -857,6 +857,11 @@ class Interp:
             return True
         if type(v).__name__ == 'MatchObj':
             return True
+        if type(v).__name__ == 'AbsAny':
+            # the value of an uninterpreted method: its truth is an uninterpreted predicate of the same term (both explored)
+            from . import abstract as _ab
+            f = z3.Function('any_truthy', _ab.ANY, z3.BoolSort())
+            return c.truth(f(v.term))
         raise Unsupported('truth of %r' % (type(v),))
 
     def iterate(self, v):
